@@ -109,7 +109,7 @@ func (w *world) checkByID(id uint64, l *locate.KeyLocation, err error) string {
 	}
 	w.st.evals.Add(1)
 	if l.Region.GetID() != id {
-		w.report("locate-by-id:wrong-region", fmt.Sprintf("%s asked for region %d, got %s", w.curOp, id, locStr(l)))
+		w.report(w.classKey("locate-by-id:wrong-region"), fmt.Sprintf("%s asked for region %d, got %s", w.curOp, id, locStr(l)))
 		return "VIOL"
 	}
 	return "ok:" + w.freshness(l)
@@ -170,7 +170,7 @@ func (w *world) checkCover(api string, ranges [][2]string, locs []*locate.KeyLoc
 			}
 			class = "cached-region-dropped"
 		}
-		w.report(api+":"+class, fmt.Sprintf("%s returned %s: key %q of the requested ranges is not covered (in order); cache before %s; cluster %s",
+		w.report(w.classKey(api+":"+class), fmt.Sprintf("%s returned %s: key %q of the requested ranges is not covered (in order); cache before %s; cluster %s",
 			w.curOp, locsStr(locs), missing, w.cacheStr(pre), w.topoStr()))
 		return "VIOL"
 	}
@@ -209,7 +209,7 @@ func (w *world) checkGroups(keys [][]byte, groups map[locate.RegionVerID][][]byt
 				firstOf = id
 			}
 			if known && !(rng[0] <= string(k) && (rng[1] == "" || string(k) < rng[1])) {
-				w.report("group-keys:region-does-not-contain-key", fmt.Sprintf("%s put key %q into region %d ver %d = [%s,%s)", w.curOp, k, id.GetID(), id.GetVer(), rng[0], rng[1]))
+				w.report(w.classKey("group-keys:region-does-not-contain-key"), fmt.Sprintf("%s put key %q into region %d ver %d = [%s,%s)", w.curOp, k, id.GetID(), id.GetVer(), rng[0], rng[1]))
 				return "VIOL"
 			}
 			if !known {
@@ -219,12 +219,12 @@ func (w *world) checkGroups(keys [][]byte, groups map[locate.RegionVerID][][]byt
 	}
 	for _, k := range keys {
 		if seen[string(k)] != 1 {
-			w.report("group-keys:key-not-in-exactly-one-group", fmt.Sprintf("%s: key %q appears in %d groups", w.curOp, k, seen[string(k)]))
+			w.report(w.classKey("group-keys:key-not-in-exactly-one-group"), fmt.Sprintf("%s: key %q appears in %d groups", w.curOp, k, seen[string(k)]))
 			return "VIOL"
 		}
 	}
 	if firstOf != first {
-		w.report("group-keys:first-region-mismatch", fmt.Sprintf("%s: first=%v but key %q is in %v", w.curOp, first, keys[0], firstOf))
+		w.report(w.classKey("group-keys:first-region-mismatch"), fmt.Sprintf("%s: first=%v but key %q is in %v", w.curOp, first, keys[0], firstOf))
 		return "VIOL"
 	}
 	return fmt.Sprintf("ok:groups=%d", len(groups))
